@@ -205,8 +205,11 @@ def inj(text):
 # --------------------------------------------------------------------------
 # injection
 # --------------------------------------------------------------------------
-def inject(src, fnspecs, fname, warnings, taint=None, modname=''):
+def inject(src, fnspecs, fname, warnings, taint=None, modname='', force_ext=None):
+    """force_ext: functions ('mod::path') whose body the verifier could not process on a previous attempt: they keep their
+    signature contract but become external_body (contract assumed, reported as undecided), body annotations are dropped."""
     taint = taint if taint is not None else set()
+    force_ext = force_ext or set()
     m = rsx.mask(src)
     fns = rsx.parse_items(src, m)
     by_path = {}
@@ -245,13 +248,19 @@ def inject(src, fnspecs, fname, warnings, taint=None, modname=''):
             edits.append((f.item_start, f.body_close + 1, inj('/* dropped: %s */' % tag)))
             continue
         # markers for classification
-        edits.append((f.body_open + 1, f.body_open + 1, inj('/*@FN %s props=%s sem=%s%s@*/' % (tag, ','.join(sp.props), ','.join(sp.sem), ' ext=1' if 'external_body' in sp.flags else ''))))
+        degraded = (modname + '::' + sp.path.split('#')[0]) in force_ext and 'external_body' not in sp.flags
+        edits.append((f.body_open + 1, f.body_open + 1, inj('/*@FN %s props=%s sem=%s%s%s@*/' % (tag, ','.join(sp.props), ','.join(sp.sem), ' ext=1' if 'external_body' in sp.flags else '', ' deg=1' if degraded else ''))))
         edits.append((f.body_close, f.body_close, inj('/*@ENDFN %s@*/' % tag)))
-        if 'external_body' in sp.flags:
+        if 'external_body' in sp.flags or degraded:
             edits.append((f.item_start, f.item_start, inj('#[verifier::external_body] ')))
         lost_names = set()  # ghost variables declared by parts that had to be skipped
         for kind, arg, text, ln in sp.parts:
             text = text.rstrip('\n')
+            if degraded and kind not in ('ret', 'sig', 'attr'):
+                # body annotations of a degraded function are dropped, except ghost-field initialisers of struct literals
+                # (the body is still type-checked by rustc)
+                if not (kind in ('hint_before', 'hint_after') and re.match(r'^\s*\w+: Ghost\(', text.strip().split('\n')[0] or '')):
+                    continue
             if lost_names and kind not in ('ret', 'sig', 'attr'):
                 hit = [nm for nm in lost_names if re.search(r'\b%s\b' % re.escape(nm), text)]
                 if hit:
@@ -341,6 +350,16 @@ def inject(src, fnspecs, fname, warnings, taint=None, modname=''):
                 edits.append((f.item_start + g.start(), f.item_start + g.end(), inj('/*R:%s*/' % g.group(0).replace('*/', '* /')) + g.expand(text.strip('\n'))))
             else:
                 raise LostAnchor('spec %s: unknown part %s' % (sp.src, kind))
+    # functions without a contract section: marked too (so that a diagnostic inside them can be attributed), and made
+    # external_body when the verifier could not process them on a previous attempt
+    for f in fns:
+        if id(f) in used or f.body_open is None:
+            continue
+        deg = (modname + '::' + f.path) in force_ext
+        edits.append((f.body_open + 1, f.body_open + 1, inj('/*@FN %s props= sem= unc=1%s@*/' % (f.path, ' deg=1' if deg else ''))))
+        edits.append((f.body_close, f.body_close, inj('/*@ENDFN %s@*/' % f.path)))
+        if deg:
+            edits.append((f.item_start, f.item_start, inj('#[verifier::external_body] ')))
     # apply edits right-to-left; stable for equal positions (keep spec order)
     edits_sorted = sorted(enumerate(edits), key=lambda e: (e[1][0], e[0]))
     out, last = [], 0
@@ -401,7 +420,7 @@ def strip_docs(src):
     return re.sub(r'^[ \t]*//[/!].*\n', '', src, flags=re.M)
 
 
-def build(repo_src, only=None):
+def build(repo_src, only=None, force_ext=None):
     """Returns dict(text=..., warnings=[...], rewrites=[...], uncontracted={mod:[...]}, sources={mod:path})."""
     cfg = load_modules()
     warnings, rewrites_log, uncontracted, sources = [], [], {}, {}
@@ -424,7 +443,7 @@ def build(repo_src, only=None):
         src, log = apply_rewrites(src, md.get('rewrites', []), md['file'], warnings)
         rewrites_log += [(md['file'],) + x for x in log]
         fnspecs, extra = parse_spec_file(os.path.join(SPECS, 'contracts', md['name'].replace('::', '_') + '.spec'))
-        src, unc = inject(src, fnspecs, md['file'], warnings, taint, md['name'])
+        src, unc = inject(src, fnspecs, md['file'], warnings, taint, md['name'], force_ext)
         uncontracted[md['name']] = unc
         tree[md['name']] = (md, src, extra)
     # nest modules: names like reader::range_iter go inside reader
@@ -442,7 +461,8 @@ def build(repo_src, only=None):
             body += render(name)
     root = open(os.path.join(SPECS, 'root.rs')).read()
     text = '\n'.join(parts) + '\nverus! {\n' + root + '\n' + body + '\n} // verus!\nfn main() {}\n'
-    return dict(text=text, warnings=warnings, rewrites=rewrites_log, uncontracted=uncontracted, sources=sources, taint=sorted(taint))
+    return dict(text=text, warnings=warnings, rewrites=rewrites_log, uncontracted=uncontracted, sources=sources, taint=sorted(taint),
+                degraded=sorted(force_ext or []))
 
 
 def source_hash(repo_src):
